@@ -73,7 +73,8 @@ fn follow_family(steps: &[Value], use_constant_getter: bool) -> Bad {
                 Ok(())
             }
             "getter" => {
-                g.set(getter_outcome(&a["o"], Time(5)));
+                // the followed datum's timestamp runs backwards: following must not depend on it
+                g.set(getter_outcome(&a["o"], Time(1_000 - 7 * idx as i64)));
                 Ok(())
             }
             _ => if use_constant_getter { cg.update() } else { probe.update() },
@@ -105,6 +106,54 @@ fn follow_family(steps: &[Value], use_constant_getter: bool) -> Bad {
             }
         }
     }
+    None
+}
+
+/// The follow behaviours on a real Terminal (devices): its state slot follows a getter of state data.  impl_set never fails.
+#[cfg(feature = "devices")]
+fn follow_on_terminal(steps: &[Value]) -> Bad {
+    let g = Scripted::<Datum<State>>::new();
+    let term: &'static core::cell::RefCell<Terminal<'static, E>> = Box::leak(Box::new(Terminal::<E>::new()));
+    let mk = |v: i64| Datum::new(Time(v * 11), State::new_raw(v as f32, 0.0, 0.0));
+    let dynref = || -> Reference<dyn Getter<Datum<State>, E>> {
+        Reference::from_rc_ref_cell(Rc::new(RefCell::new(CellGetter { cell: g.cell.clone(), reads: g.reads.clone() })) as Rc<RefCell<dyn Getter<Datum<State>, E>>>)
+    };
+    for (idx, st) in steps.iter().enumerate() {
+        let a = &st["a"];
+        let r: Result<NothingOrError<E>, String> = catch(|| match s(a, "op") {
+            "set" => term.borrow_mut().set(mk(i(a, "v"))),
+            "follow" => {
+                <Terminal<E> as Settable<Datum<State>, E>>::follow(&mut term.borrow_mut(), dynref());
+                Ok(())
+            }
+            "stop" => {
+                <Terminal<E> as Settable<Datum<State>, E>>::stop_following(&mut term.borrow_mut());
+                Ok(())
+            }
+            "getter" => {
+                let o = &a["o"];
+                g.set(match s(o, "c") {
+                    "err" => Err(mk_err(i(o, "e"))),
+                    "none" => Ok(None),
+                    _ => Ok(Some(Datum::new(Time(500 - idx as i64), mk(i(o, "v"))))),
+                });
+                Ok(())
+            }
+            _ => term.borrow_mut().update(),
+        });
+        if !ret_matches(&st["ret"], &r) {
+            return Some((idx, format!("Terminal as a settable: return value of {}", s(a, "op")), st["ret"].clone(), ret_json(&r)));
+        }
+        let last: Option<Datum<State>> = term.borrow().get_last_request();
+        let exp = opt_i64(&st["obs"]["lastReq"]).map(mk);
+        if last != exp {
+            return Some((idx, "Terminal as a settable: last state request".into(), json!(exp.map(|d| d.value.position)), json!(last.map(|d| d.value.position))));
+        }
+    }
+    None
+}
+#[cfg(not(feature = "devices"))]
+fn follow_on_terminal(_steps: &[Value]) -> Bad {
     None
 }
 
@@ -352,8 +401,9 @@ fn main() {
                 res.push((follow_family(steps, false), json!("probe settable")));
                 let all_ok = steps.iter().all(|st| st["a"]["op"] != "nextok");
                 if all_ok {
-                    rep.count("replays", 1);
+                    rep.count("replays", 2);
                     res.push((follow_family(steps, true), json!("ConstantGetter as the settable")));
+                    res.push((follow_on_terminal(steps), json!("Terminal (state slot) as the settable")));
                 }
             }
             "history" => {
